@@ -109,7 +109,7 @@ func HarnessNoFalseAlarm() {
 		logs = append(logs, mkEntry(base+i, "e"))
 	}
 	cp := base + n
-	scenario := vrt.Choice("scenario", vrt.Param("scenarios", 5))
+	scenario := vrt.Choice("scenario", vrt.Param("scenarios", 6))
 	// leader A writes entries and (scenario permitting) the checkpoint
 	vrt.Assert("C16.leader-store-ok", A.ls.StoreLogs(logs) == nil)
 	cut := base + uint64(vrt.Choice("cut", int(n)+1)) - 1 // base-1: single batch
@@ -167,6 +167,19 @@ func HarnessNoFalseAlarm() {
 			vrt.Assert("C16.no-false-mismatch-after-tail-truncation", !isMismatch(r.Err))
 		}
 		vrt.Reach("leader-change")
+		return
+	case 5: // the LEADER's middleware restarted part-way through the interval: its checkpoint covers a shorter range than the follower has summed
+		A.start()
+		more := mkEntry(cp, "m")
+		vrt.Assert("C16.leader-store-ok", A.ls.StoreLogs([]*raft.Log{more, cpEntry(cp+1, 5)}) == nil)
+		vrt.Assert("C16.follower-store-ok", replicate(A, F, base, cp+1, cut, nil) == nil)
+		vrt.Quiesce()
+		r := lastReport(F)
+		vrt.Assert("C16.report-delivered", r != nil)
+		if r != nil {
+			vrt.Assert("C16.no-false-mismatch-after-leader-restart", !isMismatch(r.Err))
+		}
+		vrt.Reach("leader-restart")
 		return
 	case 4: // two checkpoints, the second range starts at the first checkpoint
 		vrt.Assert("C16.leader-store-ok", A.ls.StoreLog(cpEntry(cp, 5)) == nil)
@@ -375,10 +388,16 @@ func HarnessNonBlocking() {
 	for k := 0; k < c; k++ {
 		e := mkEntry(idx, "e")
 		cp := cpEntry(idx+1, 3)
-		err := V.ls.StoreLogs([]*raft.Log{e, cp})
+		batch := []*raft.Log{e, cp}
+		if k == 0 && vrt.Bool("two-checkpoints-in-one-batch") {
+			// a batch may carry several checkpoints; each still needs its report or its counted drop
+			batch = append(batch, mkEntry(idx+2, "e"), cpEntry(idx+3, 3))
+			c++
+		}
+		err := V.ls.StoreLogs(batch)
 		vrt.Assert("C18.store-completes-while-callback-blocked", err == nil)
 		cps = append(cps, idx+1)
-		idx += 2
+		idx += uint64(len(batch))
 		if vrt.Choice("run-verifier", 2) == 1 {
 			vrt.Quiesce()
 		}
